@@ -214,6 +214,8 @@ pub struct Final {
   pub audit: Vec<(u8, Option<u32>, u64, u64)>,
   /// what iteration still shows after the drain (a background load may land late)
   pub audit_left: Vec<(u8, u32, u32, u64)>,
+  /// event stamp at which the drain audit began (policy calls after it belong to the audit)
+  pub audit_at: u64,
 }
 
 #[derive(Default)]
@@ -750,6 +752,7 @@ pub fn settle_and_audit(cache: &SCache, sc: &CacheSc, keys: u8) {
   // collected), so "current_cost equals the cost of what is resident" is decided by taking
   // everything out: each removal must subtract what it removed and the counter must end at 0.
   HIST.with(|h| h.borrow_mut().audit_started = true);
+  let audit_at = next_seq();
   let mut audit = vec![];
   for k in 0..keys {
     let c0 = cache.metrics().current_cost;
@@ -761,7 +764,7 @@ pub fn settle_and_audit(cache: &SCache, sc: &CacheSc, keys: u8) {
   if let Some(last) = audit.last_mut() {
     last.3 = cache.metrics().current_cost;
   }
-  HIST.with(|h| h.borrow_mut().fin = Some(Final { residents: res, current_cost: cost, maintenance_passes: passes, settled, now_ns: fibre_verif_rt::time::now_ns(), audit, audit_left }));
+  HIST.with(|h| h.borrow_mut().fin = Some(Final { residents: res, current_cost: cost, maintenance_passes: passes, settled, now_ns: fibre_verif_rt::time::now_ns(), audit, audit_left, audit_at }));
 }
 
 /// What a lane emphasises.
@@ -778,6 +781,8 @@ pub struct CacheProfile {
   /// only fetch_with, removals (remove / invalidate / clear) and plain reads over two keys:
   /// loads racing invalidations
   pub loader_race: bool,
+  /// only insert / remove / invalidate / reads (and the odd maintenance pass) over two keys
+  pub reinsert_race: bool,
 }
 
 pub struct CacheFamily {
@@ -800,6 +805,20 @@ impl CacheFamily {
         7 => COp::Clear,
         8 => COp::Fetch { k },
         _ => COp::Get { k },
+      };
+    }
+    if p.reinsert_race {
+      let k = rng.below(2) as u8;
+      // (an entry the policy has forgotten shows at quiescence once it alone outweighs the capacity)
+      let cost = *rng.pick(&[1u64, 2, 3, 3]);
+      return match rng.below(12) {
+        0..=4 => COp::Insert { k, cost },
+        5 | 6 => COp::Remove { k },
+        7 => COp::Invalidate { k },
+        8 => COp::Get { k },
+        9 => COp::Fetch { k },
+        10 => COp::RunMaintenance,
+        _ => COp::Insert { k: 2 + rng.below(2) as u8, cost },
       };
     }
     loop {
@@ -867,7 +886,7 @@ impl Family for CacheFamily {
   fn generate(&self, rng: &mut Rng) -> CacheSc {
     let p = &self.profile;
     let shards = *rng.pick(&[1usize, 2, 2, 4]);
-    let capacity = if p.bounded { Some(*rng.pick(&[1u64, 1, 2, 3, 3, 4, 6, 8])) } else if rng.chance(1, 3) { Some(1000) } else { None };
+    let capacity = if p.reinsert_race { Some(*rng.pick(&[1u64, 1, 2, 2, 3])) } else if p.bounded { Some(*rng.pick(&[1u64, 1, 2, 3, 3, 4, 6, 8])) } else if rng.chance(1, 3) { Some(1000) } else { None };
     // capacity-sized policies (TinyLfu, Slru, Arc) need a finite capacity
     let policy = if capacity.is_none() { *rng.pick(&[PolicyKind::Null, PolicyKind::Null, PolicyKind::Lru, PolicyKind::Fifo, PolicyKind::Sieve, PolicyKind::Clock, PolicyKind::Random]) } else { *rng.pick(&PolicyKind::ALL[..8]) };
     let loader = if p.loader { *rng.pick(&[LoaderKind::Sync, LoaderKind::Sync, LoaderKind::Async]) } else { LoaderKind::None };
@@ -875,7 +894,7 @@ impl Family for CacheFamily {
     let expiry = p.expiry;
     let mut clients = vec![];
     for _ in 0..nclients {
-      let is_async = p.async_clients && rng.chance(1, 3);
+      let is_async = p.async_clients && if p.reinsert_race || p.loader_race { rng.chance(1, 2) } else { rng.chance(1, 3) };
       let n = rng.range(2, 8);
       let ops = (0..n).map(|_| self.gen_op(rng, loader != LoaderKind::None, expiry)).collect();
       clients.push(Client { is_async, ops });
